@@ -890,10 +890,20 @@ func runModelCase(rng *rand.Rand, servers [2]*tchannel.Channel, caseNo int) (in,
 	if rng.Intn(8) == 0 {
 		raceAt = 1 + rng.Intn(10)
 	}
+	if caseNo%8 == 3 {
+		// the close-vs-admission window is forced in every 8th case, early enough that the
+		// script is still running and before any other connection-level event: it never
+		// depends on the draw above
+		raceAt = 1
+		if eventAt <= raceAt {
+			eventAt = raceAt + 1
+		}
+	}
 	for step := 0; step < 200 && m.infeasible == ""; step++ {
 		if step == raceAt && !m.closing && !m.cut {
 			// Close between newExchange and the state re-check of handleCallReq (schedule
-			// point inbound.afterNewExchange): the exchange is shut down, no handler runs
+			// point inbound.afterNewExchange): the call is declined (error frame), the exchange
+			// is shut down, no handler runs
 			classes = append(classes, "event:close-vs-admission")
 			id := nextID + 300
 			s := NewSched()
